@@ -88,6 +88,14 @@ Theorem heading_id_matches_reference : forall st title, Forall (fun b => b < 128
 Proof. exact header_id_is_reference. Qed.
 Print Assumptions heading_id_matches_reference.
 
+(* the same for titles in any encoding: whenever the title does not begin with a UTF-8 continuation byte -
+   in particular for every valid UTF-8 title - the id, the automatic link label and the reference label agree *)
+Theorem heading_id_matches_reference_any_title : forall st title,
+  match title with [] => True | x :: _ => is_cont x = false end ->
+  header_id st title = reference_label title /\ autolink_label st title = reference_label title.
+Proof. exact header_id_is_reference_utf8. Qed.
+Print Assumptions heading_id_matches_reference_any_title.
+
 Theorem heading_manual_label : forall lab, Forall (fun b => b < 128) lab ->
   manual_id lab = map lower (filter label_allowed lab).
 Proof. exact manual_id_spec. Qed.
